@@ -4,6 +4,7 @@ import (
 	"fmt"
 	"strconv"
 	"strings"
+	"time"
 
 	"verifharness/internal/core"
 )
@@ -92,6 +93,10 @@ func runC04(r *core.Run) {
 	mc := r.MustHold(core.TLCOpts{Module: "RelMC", Cfg: "RelMC_bucket.cfg", Workers: 8})
 	r.Coverage["states"] = mc.Distinct
 	r.Coverage["transitions"] = mc.Generated
+	// the acceptance predicates themselves: satisfiable, sensitive and functional over all small inputs (RelJudge.tla)
+	mj := r.MustHold(core.TLCOpts{Module: "RelJudge", Cfg: "RelJudge_bucket.cfg", Workers: 8, Timeout: 20 * time.Minute})
+	r.Coverage["states"] = mc.Distinct + mj.Distinct
+	r.Coverage["transitions"] = mc.Generated + mj.Generated
 	ncase := 150
 	if r.Thorough {
 		ncase = 2000
